@@ -3,6 +3,7 @@
 
 use crate::report::*;
 use crate::seqx;
+use crate::gsweep;
 use crate::seqx::Out;
 use serde_json::{json, Value};
 
@@ -86,6 +87,43 @@ pub fn plan(prop: &str, tier: &str) -> Option<Plan> {
                 assumptions: common_assumptions,
             })
         }
+        "C04" | "C05" | "C06" | "C07" | "C08" | "C09" | "C10" => {
+            let flavours: &[&str] = if prop == "C08" { &DIRECTED } else { &ALL };
+            // (n, max_l, val_range, shards)
+            let bounds: Vec<(usize, usize, i8, usize)> = match (prop, tier) {
+                ("C06", "quick") => vec![(2, 3, 3, 1), (3, 3, 2, 4)],
+                ("C06", _) => vec![(2, 4, 3, 1), (3, 4, 3, 16), (4, 3, 2, 16)],
+                (_, "quick") => vec![(2, 4, 0, 1), (3, 3, 0, 4)],
+                ("C08", _) | ("C07", _) => vec![(2, 5, 0, 2), (3, 4, 0, 16), (4, 3, 0, 8)],
+                (_, _) => vec![(2, 5, 0, 2), (3, 5, 0, 16), (4, 4, 0, 16)],
+            };
+            let mut jobs = Vec::new();
+            for f in flavours {
+                for (n, l, vr, sh) in &bounds {
+                    jobs.extend(sharded(prop, "gsweep", f, tier, json!({"n": n, "max_l": l, "val_range": vr}), *sh));
+                }
+                if prop == "C06" {
+                    jobs.push(job(prop, "gsweep", f, tier, json!({"cmp": true})));
+                }
+            }
+            let what = match prop {
+                "C04" => "bfs search_path/search for every root, target != root and every subset of rejected arcs (filter) plus no method; oracle: reference BFS distance on the accepted arcs, path validity, shortest length",
+                "C05" => "dfs search_path/search, same space; oracle: reference reachability, path validity, simple path",
+                "C06" => "pfs min/max for every node-value assignment from a small range (ties included), every root, target (and none), for_each and every filter subset; oracle: expansion-order monitor on the closure trace, path validity, reachability",
+                "C07" => "all six traversal kinds: for_each without target (multiset of closure calls = arcs leaving reachable nodes) and every non-empty filter subset for every result kind (no rejected arc in any result, existence = reachability in the accepted graph)",
+                "C08" => "every transposed configuration {6 kinds} x {result kinds} x target x {none, for_each, every filter subset}: differential against the same call without transpose() on the edge-reversed graph built with the real code, plus reference oracles on the reversed model; without transpose() only out-arcs are handed to closures",
+                "C09" => "search_cycle for bfs/dfs/pfs-min/pfs-max, no method / for_each / every filter subset; oracle: reference cycle existence, validity, no repeated arc or intermediate node (directed), shortest for bfs (directed); closed walk (undirected)",
+                _ => "preorder/postorder (directed) and order().pre()/.post() (undirected) search_nodes/search_edges, no method / for_each / every filter subset; oracle: exact set of all depth-first discovery / finishing sequences of the accepted graph",
+            };
+            Some(Plan {
+                jobs,
+                level: "exploration".into(),
+                rule: format!("every canonical adjacency shape (all connect-only histories up to the edge bound, deduplicated by observed adjacency lists, edges labelled 1..L) x every root x {}. evaluations = searches executed on the real code; nontrivial = distinct cases with a non-empty filter or a result of >= 2 edges / >= 3 nodes", what),
+                bounds: json!({"(nodes, max_edges, node_value_range, shards)": bounds}),
+                exhaustive: true,
+                assumptions: common_assumptions,
+            })
+        }
         _ => None,
     }
 }
@@ -93,6 +131,7 @@ pub fn plan(prop: &str, tier: &str) -> Option<Plan> {
 pub fn work(job: &Job, out: &mut Out) {
     match job.engine.as_str() {
         "seqx" => crate::with_flavor!(job.flavour.as_str(), F => seqx::explore::<F>(job, out)),
+        "gsweep" => crate::with_flavor!(job.flavour.as_str(), F => gsweep::sweep::<F>(job, out)),
         other => panic!("GDSL_MC_HARNESS: unknown engine {}", other),
     }
 }
@@ -100,6 +139,7 @@ pub fn work(job: &Job, out: &mut Out) {
 pub fn replay(property: &str, engine: &str, flavour: &str, case: &Value) -> Vec<Violation> {
     match engine {
         "seqx" => crate::with_flavor!(flavour, F => seqx::replay::<F>(property, case)),
+        "gsweep" => crate::with_flavor!(flavour, F => gsweep::replay::<F>(property, case)),
         other => panic!("GDSL_MC_HARNESS: unknown engine {}", other),
     }
 }
